@@ -1113,6 +1113,17 @@ where
                 continue;
             };
 
+            // An intercepted batch is answered right here: it needs no server, and a server checked
+            // out for it would stay with the client until its next transaction is over.
+            if message[0] as char == 'S' {
+                if let Some(PluginOutput::Intercept(result)) = plugin_output {
+                    self.reset_buffered_state();
+                    write_all(&mut self.write, result).await?;
+                    plugin_output = None;
+                    continue;
+                }
+            }
+
             // Check if the pool is paused and wait until it's resumed.
             pool.wait_paused().await;
 
